@@ -197,6 +197,55 @@ theorem update_true_frame (b : Bundle) (node : Eid) (rt now : Nat)
     simp [this]
   | _ => rfl
 
+/-- the same with the age field stored as the code stores it: the sum, or the largest 64-bit value
+    when the sum does not fit -/
+def expectedCanonSat (b : Bundle) (node : Eid) (rt : Nat) : List Canon :=
+  updFirst isAge (fun c => match c.data with | .age a => { c with data := .age (min (a + rt) (U64 - 1)) } | _ => c)
+    (updFirst isPrev (setPrev node)
+      (updFirst isHop (fun c => match c.data with | .hop l n => { c with data := .hop l (n + 1) } | _ => c) b.canon))
+
+/-- **C08 (frame, any lifetime).** Without the assumption that the lifetime fits 64 bits of
+    milliseconds (a `Duration` built through the API may hold more): when the update returns true
+    the bundle changes as in `update_true_frame`, except that an age that no longer fits its 64-bit
+    field is stored as `2^64 - 1` — it never wraps to a smaller value. -/
+theorem update_true_frame_sat (b : Bundle) (node : Eid) (rt now : Nat)
+    (hu8 : ∀ l n, hopOf b = some (l, n) → l < 256)
+    (h : (b.updateExtensions node rt now).ret = true) :
+    (b.updateExtensions node rt now).bundle = { b with canon := expectedCanonSat b node rt } := by
+  have hf : ¬ (b.updateExtensions node rt now).ret = false := by simp [h]
+  rw [update_false_iff] at hf
+  have hnh : ¬ hopExceeded b := fun x => hf (Or.inl x)
+  have hna : ¬ ageExceeded b rt := fun x => hf (Or.inr (Or.inl x))
+  have h1 : ¬ (hopStep b.canon).1 = true := by rwa [hopStep_fst]
+  have h2 : ¬ (ageStep rt b.primary.lifetime (prevStep node (hopStep b.canon).2)).1 = true := by
+    rwa [ageStep_fst]
+  unfold Bundle.updateExtensions
+  simp only [h1, h2, Bool.false_eq_true, if_false]
+  congr 1
+  unfold expectedCanonSat ageStep prevStep hopStep
+  simp only
+  have e1 : updFirst isHop bumpHop b.canon
+      = updFirst isHop (fun c => match c.data with | .hop l n => { c with data := .hop l (n + 1) } | _ => c) b.canon := by
+    apply updFirst_of_find
+    intro c hc
+    unfold bumpHop
+    cases hd : c.data with
+    | hop l n =>
+      have ho : hopOf b = some (l, n) := by
+        unfold hopOf presentBlock
+        unfold isHop at hc
+        simp [hc, hd]
+      have hl := hu8 l n ho
+      have : ¬ n + 1 > l := fun hx => hnh ⟨l, n, ho, hx⟩
+      have : min (n + 1) 255 = n + 1 := by omega
+      simp [this]
+    | _ => rfl
+  rw [e1]
+  apply updFirst_of_find
+  intro c _
+  unfold addAge
+  cases c.data <;> rfl
+
 /-! ### non-vacuity and boundary instances -/
 def sample : Bundle :=
   { primary := { version := 7, flags := 0, crc := .no, dst := .dtn 1 [47, 47, 100, 47], src := .ipn 2 1 1,
@@ -212,5 +261,11 @@ example : (sample.updateExtensions (.ipn 2 5 0) 2 3601000).ret = false := by dec
 /-- hop count 255 of limit 255: exceeded, no wrap (the F3b case) -/
 example : (({ sample with canon := [{ btype := 10, num := 2, flags := 0, crc := .no, data := .hop 255 255 }] } : Bundle).updateExtensions
     (.ipn 2 5 0) 0 0).ret = false := by decide
+
+/-- a lifetime of 2^64 ms + 384 ms, age 5, residence time 2^64: forwarded, age stored as 2^64 - 1 -/
+example : (({ sample with primary := { sample.primary with lifetime := 18446744073709551616 + 384 },
+                          canon := [{ btype := 7, num := 3, flags := 0, crc := .no, data := .age 5 }] } : Bundle).updateExtensions
+    (.ipn 2 5 0) 18446744073709551616 2000).ret = true := by decide
+
 
 end Bp7.C08
